@@ -55,6 +55,8 @@ parser { t += /[0-9A-Za-z_]+/; " "; /[0-9A-Fa-f]+/; m = 1; ";"; /[\\-0-9.]+/; "!
 parser { loop { case { "ab" -> { yield A; } "c" -> { h(); } ";" -> { break; } } } "end"; yield LAST; }"""),
     ("feat-regex-end", ["-feof-support"], """out int m = 0; hook h;
 parser { "a"; h(); m = 1; /[bc]/; }"""),
+    ("feat-lowercase", ["-fyield-support"], """out enum{aa,Bb,c_d} e; finishcode ok, Fail; yieldcode more; hook Hook_1; out int Out_1 = 0;
+parser { "a"; e = aa; "b"; e = Bb; Hook_1(); case { "c" -> { if e == c_d { finish ok; } else { Out_1 = 1; yield more; } } "d" -> { e = c_d; finish Fail; } } "z"; }"""),
     ("feat-signed", [], """out int{signed, size 1} a = -1; out int{signed, size 2} b = 0; out int{size 8} c = 0; out int{unsigned, size 4} d = 0;
 parser { foreach { /./ ; } do { a = [a - 100]; b = [b + a * 2]; d = [d - 1]; c = [c * 3 + d]; } }"""),
 ]
